@@ -391,6 +391,38 @@ def r8_settings_wiring(chk, prog, rule='R8'):
     chk.check(not missing, rule, H, 'every usage start flag is wired', '', 'no call of %s under a start flag' % missing)
 
 
+def r9_property_getters(chk, prog, rule='R9'):
+    """R9: the visibility predicate asks TypedArgBase::isMandatory/isHidden/isDeprecated - each of them reports ONE
+    stored flag, unconditioned, and every setter of the property (setIsMandatory, setIsHidden, setIsDeprecated, and
+    setReplacedBy, which makes an argument deprecated as well) stores true into that flag on every normal path"""
+    T = 'celma::prog_args::detail::TypedArgBase'
+    table = {'isMandatory': ('setIsMandatory',), 'isHidden': ('setIsHidden',),
+             'isDeprecated': ('setIsDeprecated', 'setReplacedBy')}
+    flags = {}
+    for g, setters in table.items():
+        f = prog.one(T, g)
+        rets = [x for x in f.walk() if x.get('k') == 'ReturnStmt']
+        v = strip_all_casts(children(rets[0])[0]) if len(rets) == 1 and children(rets[0]) else {}
+        fl = {x['ref'].get('name') for x in f.walk() if x.get('k') == 'MemberExpr' and x['ref'].get('dk') == 'Field'}
+        ok = v.get('k') == 'MemberExpr' and fl == {v['ref'].get('name')} and not list(f.calls())
+        chk.check(ok, rule, f.name, '%s() reports one stored flag, unconditioned' % g, f.loc(),
+                  'members consulted: %s' % sorted(fl))
+        if not ok:
+            continue
+        flag = v['ref'].get('name')
+        flags[g] = flag
+        for sname in setters:
+            sf = prog.one(T, sname)
+            stores = [x for x in sf.walk() if x.get('k') == 'BinaryOperator' and x.get('op') == '=' and
+                      field_name(children(x)[0]) == flag and
+                      strip_all_casts(children(x)[1]).get('k') == 'CXXBoolLiteralExpr' and
+                      strip_all_casts(children(x)[1]).get('val') in (True, 1)]
+            off = sf.cfg.must_pass_through(lambda n: any(n is x for x in stores)) if stores else ['no store']
+            chk.check(bool(stores) and not off, rule, sf.name, '%s() stores true into the flag that %s() reports, on '
+                      'every normal path' % (sname, g), sf.loc())
+    chk.check(len(set(flags.values())) == len(flags), rule, T, 'the three properties are three flags', '', '%s' % flags)
+
+
 def r4_one_settings_object(chk, prog):
     """'visible under the CURRENT settings': the usage settings (print hidden / deprecated, short-only / long-only)
     live in one UsageParams object per handler family; the arguments that change them at run time write into that
@@ -453,7 +485,7 @@ def run(chk):
         'description streamed exactly once, nothing for invisible ones, no early loop exit); must-pass-through of the '
         'description registration on every add path; branch/guard rules for the single-argument help. '
         'Not decided: layout.')
-    chk.assumptions = ['TypedArgBase::isHidden/isDeprecated/isMandatory report the configured properties']
+    chk.assumptions = []
     chk.rule('R1', 'visibility predicate equals the specification', 2)
     chk.rule('R2', 'two complementary passes; every visible argument listed exactly once', 10)
     chk.rule('R3', 'single-argument help', 4)
@@ -466,6 +498,8 @@ def run(chk):
     r5_visibility_arguments(chk, prog)
     chk.rule('R7', 'default value, check, constraint and hidden mark are listed whenever configured', 4)
     r7_extras(chk, prog)
+    chk.rule('R9', 'isMandatory/isHidden/isDeprecated report the configured properties', 7)
+    r9_property_getters(chk, prog)
     chk.rule('R8', 'every display setting is switched by the argument / start flag named after it', 15)
     r8_settings_wiring(chk, prog)
     # R6: the description text is formatted by TextBlock: no word of it is lost (C17-R1, same unit)
